@@ -565,6 +565,8 @@ func (g *gen) genSpec(id int) {
 		signer = g.addrs[28]
 	case 4:
 		gh.Extra = append(gh.Extra[:32], append(r.Bytes(1+r.Intn(19)), gh.Extra[32:]...)...) // validator bytes not a multiple of 20
+	case 5:
+		gh.Bloom = make([]byte, 257) // a client created without validation: Hash() of this header panics in the first update
 	}
 	seal(&gh, g.byAddr[signer], sp.ChainID)
 	if r.Chance(1, 80) {
